@@ -33,7 +33,16 @@ fn fixtures() {
 }
 
 fn main() {
+    // safety net: a runaway allocation in the code under test ends this process (fatal signal -> crash handler ->
+    // the case is reported) instead of exhausting the machine; the checks need a few GiB at most
     let argv: Vec<String> = std::env::args().collect();
+    // (only for property runs: the `stress` child may be a ThreadSanitizer build, which reserves terabytes)
+    if argv.get(1).map(|a| a.starts_with('C')).unwrap_or(false) {
+        unsafe {
+            let lim = libc::rlimit { rlim_cur: 32 << 30, rlim_max: 32 << 30 };
+            libc::setrlimit(libc::RLIMIT_AS, &lim);
+        }
+    }
     if argv.len() < 3 && !(argv.len() >= 2 && (argv[1] == "fixtures" || argv[1] == "oracle-server" || argv[1] == "stress" || argv[1] == "fuzz-replay")) {
         eprintln!("usage: vcheck <Cxx> <quick|thorough> [--replay FILE]");
         std::process::exit(2);
